@@ -216,8 +216,8 @@ func checkC06(r *core.Result) {
 						wantS = "make-map,map-insert"
 					case rep && packableKind(k):
 						wantS = "append,append-spread"
-						if k == protoreflect.EnumKind {
-							wantS = "append" // packed enums are appended element-wise after conversion
+						if k == protoreflect.EnumKind || k == protoreflect.Sfixed32Kind || k == protoreflect.Sfixed64Kind {
+							wantS = "append" // the packed reader yields the unsigned/int32 carrier type: elements are appended one by one after conversion
 						}
 					case rep:
 						wantS = "append"
